@@ -202,6 +202,17 @@ func (g *gstate) apply(cfg *ipa.IPAConfig, o *gop, e ev, rnd *prg) {
 	case "srs":
 		P[o.D] = cfg.SRS[o.A]
 		g.st[o.D] = "ok"
+	case "ypt":
+		// an element chosen from the y side (see decodeInput): half of the time the representative with the smaller y
+		c := decCase{Fn: "SetBytesUncompressed", Cls: o.S}
+		buf := (&driver{seed: int(rnd.intn(1 << 20))}).decodeInput(&c, o.A)
+		x, y := new(big.Int).SetBytes(buf[:32]), new(big.Int).SetBytes(buf[32:])
+		if o.A%4 >= 2 {
+			x, y = subm(big.NewInt(0), x), subm(big.NewInt(0), y)
+		}
+		P[o.D] = banderwagon.VerifFromCoords(fpFromBig(x), fpFromBig(y), fpFromBig(big.NewInt(1)))
+		e["pt"] = [][]int{limbsOfBig(x), limbsOfBig(y)}
+		g.st[o.D] = "ok"
 	case "add":
 		P[o.D].Add(&P[o.A], &P[o.B])
 		g.st[o.D] = "ok"
